@@ -180,10 +180,25 @@ AftVerdict(r, prop) ==
             ELSE IF \E k \in Keys : a.without.gets[k] # a.with.gets[k] THEN V("C12", "after a crash and a merge, recovery without hint files reads differently")
             ELSE OK
 
+\* (all-eligible configurations) a merge pass right after recovery, before anything is written
+LiveSizeOf(gets) ==
+    LET ks == {k \in Keys : gets[k] \in DOMAIN Hdr.vals}
+    IN MapThenSumSet(LAMBDA k : 25 + Hdr.keys[k] + Hdr.vals[gets[k]], ks)
+PreMergeVerdict(r, prop) ==
+    LET rec == r.rec IN
+    IF ~rec.opened \/ ~Has(rec, "premerge") \/ ~rec.premerge.done THEN OK
+    ELSE LET p == rec.premerge IN
+         IF p.res # "ok" THEN V(prop, "a merge right after recovery fails: " \o p.res)
+         ELSE IF \E k \in Keys : p.gets[k] # rec.map[k] THEN V(prop, "a merge right after recovery changes what a key reads")
+         ELSE IF p.size # LiveSizeOf(p.gets)
+                THEN V("C13", "after a kill or a power loss, a merge of every file leaves the store larger than its live data: what the failure left behind is not reclaimed")
+         ELSE OK
+
 Probe ==
     /\ Rec[l].ev \in {"crash", "power"}
     /\ bad' = ProbeVerdict(Rec[l], IF Rec[l].ev = "crash" THEN "C03" ELSE "C09")
-    /\ bad2' = AftVerdict(Rec[l], IF Rec[l].ev = "crash" THEN "C03" ELSE "C09")
+    /\ bad2' = LET a == AftVerdict(Rec[l], IF Rec[l].ev = "crash" THEN "C03" ELSE "C09")
+               IN IF a # OK THEN a ELSE PreMergeVerdict(Rec[l], IF Rec[l].ev = "crash" THEN "C03" ELSE "C09")
     /\ UNCHANGED <<mode, allowed, inflight, ever, mine, faulted>>
 
 Succeeded(r) == r.res \in {"ok", "true", "false"}
@@ -270,8 +285,9 @@ C03_CrashSafe == bad.p # "C03" /\ bad2.p # "C03"
 C09_PowerLossSafe == bad.p # "C09" /\ bad2.p # "C09"
 \* C12 in histories with a kill or a failed call: whatever it left behind, hint files stay an accelerator
 C12_AfterCrash == bad2.p # "C12"
-\* C13 after a failed call (same process): a merge of every file reclaims what the failure left behind
+\* C13 after a failed call (same process) / after a kill or a power loss: a merge of every file reclaims what was left behind
 C13_AfterFault == bad.p # "C13"
+C13_AfterCrash == bad2.p # "C13"
 \* C01 / C02 in runs with a failed call: the reads of the running process and of the restarted store (the
 \* fault-containment verdicts that are about what a key reads)
 LiveWhys == {"delete misreports whether the key was present", "a key reads a value it should not have"}
